@@ -107,6 +107,7 @@ def units():
 
 
 META = dict(
+    technique='CBMC 6.11 bit-precise function contracts (dfcc) + z3 integer-mode VCs with machine-range obligations; lerp/madd as term identities over uninterpreted arithmetic; one time-boxed bit-precise counterexample search',
     level="proof",
     level_text="Bit-precise CBMC contracts on the real scalar kernels for every float / int input: rcp_safe finite and never of opposite sign (RKCOMMON_NO_SIMD build: through the IEEE division itself; SIMD build: rcp_safe_t is proved to hand rcp() only finite arguments with |x| >= FLT_MIN, rcp() itself carrying an assumed contract), clamp inside [lo,hi] and identity inside, sign, deg2rad, madd equal to their definitions, cvt_uint32 equal to round(255*clamp01(f)), saturating, in [0,255], monotone (two-input lemma), per-channel packing of vec4f, alpha not gamma-corrected, makeRandomColor in [0,1]; divRoundUp = least q with q*b >= a over Z (z3) plus bit-precise overflow checks; lerp is the convex combination over the reals AND is the floating-point term (1-f)*a + f*b as written (unit c07_lerp_uf: arithmetic uninterpreted, so an algebraically equal rewrite with different rounding is not accepted), madd likewise; a 40 s bit-precise counterexample search for lerp supplies replayable inputs when the term differs.",
     level_note="NOT decided (stated in DESIGN.md 6/C07): the 2^-20 accuracy of rcp/rsqrt in either build (hardware estimate instructions have no semantics in any installed verifier; Newton-Raphson error is a non-linear floating-point fact), linear_to_srgb through pow (uninterpreted), the random distributions and their reproducibility (pcg32, third party). A change that only drops the refinement step is not detected.",
